@@ -175,6 +175,36 @@ def response_moiety(p: dict, total: float, normalized: bool) -> tuple[dict, dict
 COMPARED = [0]
 
 
+def _total_minus_one(tot: float) -> float:
+    return tot - 1.0
+
+
+def _moiety_with_assigned_start(rng, counters: dict) -> list[dict]:  # noqa: ANN001
+    """A <-> B with a conserved total; B starts at `tot - 1` (an initial assignment), A's start is overridden through
+    `variables=` (a partial override): the steady state depends on `tot` only through the assigned start value, which has to
+    be resolved again for every displaced parameter value."""
+    from mxlpy import InitialAssignment, Model, mca
+
+    k1, k2, tot, a0 = (round(rng.uniform(0.5, 3.0), 3) for _ in range(4))
+    tot += 1.0
+    m = Model()
+    m.add_parameters({"k1": k1, "k2": k2, "tot": tot})
+    m.add_variable("A", 1.0)
+    m.add_variable("B", InitialAssignment(fn=_total_minus_one, args=["tot"]))
+    m.add_reaction("vf", fl.ma1, args=["k1", "A"], stoichiometry={"A": -1, "B": 1})
+    m.add_reaction("vr", fl.ma1, args=["k2", "B"], stoichiometry={"B": -1, "A": 1})
+    total = a0 + tot - 1.0
+    exp = {"tot": {"A": k2 / (k1 + k2), "B": k1 / (k1 + k2)},
+           "k1": {"A": -k2 * total / (k1 + k2) ** 2, "B": k2 * total / (k1 + k2) ** 2}}
+    ctx = {"network": "A <-> B, B(0) = tot - 1 assigned, A(0) given through variables=", "parameters": {"k1": k1, "k2": k2, "tot": tot}, "variables": {"A": a0}}
+    out: list[dict] = []
+    for par in (False, True):
+        rc = mca.response_coefficients(m, to_scan=["tot", "k1"], variables={"A": a0}, normalized=False, disable_tqdm=True, parallel=par)
+        out += cmp_table(rc.variables, exp, 2e-2, "concentration response coefficient differs from the analytic steady-state sensitivity (start value assigned from the displaced parameter)", {"parallel": par, **ctx})
+    counters["response:conserved_total_with_a_start_value_assigned_from_the_displaced_parameter"] = 1
+    return out
+
+
 def cmp_table(df: pd.DataFrame, exp: dict, tol: float, what: str, ctx: dict) -> list[dict]:
     out = []
     for col, rows in exp.items():
@@ -301,6 +331,9 @@ def run_case(case: dict) -> dict:
             viols += cmp_table(rcb.variables, rvb, 2e-2, "concentration response coefficient of a second network (same parameter values, other structure) differs from its analytic sensitivity", {"normalized": False, **ctx})
             viols += cmp_table(rcb.fluxes, rfb, 2e-2, "flux response coefficient of a second network (same parameter values, other structure) differs from its analytic sensitivity", {"normalized": False, **ctx})
             counters["response:second_network_same_values_other_structure"] = 1
+        r_ia = core.rng_for(str(ctx.get("seed", "")) + repr(sorted(p.items())) + ":moiety_ia")
+        if r_ia.random() < 0.4:
+            viols += _moiety_with_assigned_start(r_ia, counters)
         a, b = results["sequential"], results["parallel"]
         if not (np.allclose(a.variables.to_numpy(float), b.variables[a.variables.columns].loc[a.variables.index].to_numpy(float), rtol=1e-9, atol=1e-12)
                 and np.allclose(a.fluxes.to_numpy(float), b.fluxes[a.fluxes.columns].loc[a.fluxes.index].to_numpy(float), rtol=1e-9, atol=1e-12)):
